@@ -203,6 +203,12 @@ def generate(rng, tier, index):
                             + r.randrange(-3, 8), k='date'))
             fl.append(gen.A('Initial Date', int(kernel.SimClock.EPOCH)
                             + r.randrange(-3, 70), k='date'))
+            y = r.random()
+            if y < 0.3:
+                # open-ended ranges: "everything up to T" / "since T",
+                # with the extreme bound in either position
+                fl[-2 if r.random() < 0.5 else -1]['v'] = r.choice(
+                    [0, 0, 1, 2 ** 31 - 1, 2 ** 32, 4102444800])
         for f in fl:
             if f['n'] == 'Initial Date':
                 f['v'] = int(f['v'])
